@@ -83,6 +83,9 @@ def np_value(i):
         a = np.empty(3 if i == 5 else 2, dtype=object)
         a[:] = [None, 'é', {'k': [1]}] if i == 5 else [[1, 2], [3]]
         return a
+    if i in (9, 11, 14):
+        # 0-dimensional arrays (the result of a reduction) and an empty 2-d array: shape () / (0, 3) are shapes like any other
+        return np.array(i * 1.5) if i == 9 else (np.array(i, dtype=np.int64) if i == 11 else np.zeros((0, 3), dtype=np.float32))
     dt = [np.int64, np.float32, np.float64, np.uint8, np.bool_][i % 5]
     a = (np.arange(i + (i % 3)) % 7).astype(dt)
     if i % 4 == 3 and a.size % 2 == 0:
@@ -120,7 +123,7 @@ class Values:
         if kind in ('json', 'mem'):
             self.vals = json_values(rng, 8)
         elif kind == 'npy':
-            self.vals = [np_value(i) for i in range(8)]
+            self.vals = [np_value(i) for i in (0, 1, 2, 3, 4, 5, 6, 7, 9, 11, 14)]
         else:
             self.vals = [pd_value(i) for i in range(8)]
         self.index = {ident(kind, v): i for i, v in enumerate(self.vals)}
